@@ -153,7 +153,7 @@ def transform_attr_value(ce, type_, attr, val, uuid):
 
 
 def get_presentation_value(key, source, type_):
-    if type_ not in source:
+    if type_ == -1 or type_ not in source:  # -1 is the row of defaults, not a type
         return None
     if key in source[type_]:
         return source[type_][key]
